@@ -36,6 +36,8 @@ def run_script(sc):
     pos = [0]
     gen = random.Random(sc["gen"]) if "gen" in sc else None
     sizes = [1, 2, 3, 4, 5, 6, 8, 10, 12, 15, 16, 20, 24, 30, 40, 48, 60, 80, 120, 240]
+    if sc.get("big"):   # the 1 % regime: top-ups of one or two samples on levels that hold hundreds
+        sizes = [100, 101, 102, 103, 150, 151, 200, 201, 202, 203, 204, 300, 301, 303, 304]
     state = {"last": None, "calls": 0}
 
     def gen_ns(n):
@@ -44,12 +46,18 @@ def run_script(sc):
         last = state["last"]
         if last is None or len(last) != n:
             base = list(last) if last else []
-            cur = base + [gen.choice(sizes[:8]) for _ in range(n - len(base))]
+            if sc.get('big') and not base:
+                cur = [sc['N0'] + gen.choice([0, 0, 1, 2, 50, 100]) for _ in range(n)]
+            else:
+                cur = base + [gen.choice(sizes[:8] if not sc.get('big') else [1, 2, 50, 100]) for _ in range(n - len(base))]
             cur = cur[:n]
         elif gen.random() < 0.55 or state["calls"] > 14:
             cur = list(last)            # same answer: the 1 % test passes, the bias test is asked
         else:
-            cur = [gen.choice([x for x in sizes if x >= v][:4] + [v, v, 0][:2]) if gen.random() < 0.6 else v for v in last]
+            if sc.get('big'):
+                cur = [v + gen.choice([0, 1, 1, 2, 3, 50, 100]) if gen.random() < 0.7 else v for v in last]
+            else:
+                cur = [gen.choice([x for x in sizes if x >= v][:4] + [v, v, 0][:2]) if gen.random() < 0.6 else v for v in last]
         state["last"] = cur
         return cur
 
@@ -231,6 +239,12 @@ def ret_event(stats, sc, log, MLMCResults):
             out["vlN"] = [exact_int(vl[l] * Nl[l] ** 2 / 0.25, tol=1e-6) for l in range(nlev)]
             out["varN"] = [exact_int(var_l[l] * Nl[l] ** 2 / 0.25, tol=1e-6) for l in range(nlev)]
             out["clN"] = [exact_int(cl[l] * Nl[l]) for l in range(nlev)]
+            # 32-bit guard for TLC: the second-moment identities are only checked when they fit
+            top = max([1] + [abs(x) for rr in rows + crows for x in rr if isinstance(x, int)])
+            out["vchk"] = 1 if max(Nl + [1]) ** 2 * top * top < 2 ** 30 else 0
+            if not out["vchk"]:
+                out["vlN"] = [0] * nlev
+                out["varN"] = [0] * nlev
             out["cost"] = exact_int(res.cost)
             D = 1
             for n in Nl:
